@@ -6,7 +6,7 @@
      O <track> ; b <ostart> <odur> <rtime> <dur> <jump 0|1> <ilen> <2*nout rats: direct, diffuse> ; ...
      D <track> ; b ... <nout rats> ; ...
      H <ntracks> <track...> ; b ... <ntracks*nout rats: column per input track> ; ...
-     `run`  -> the model (`Renderer.renderTrace`): blocks separated by `|` (last = tail), frames by `,`;
+     `run`  -> the model (`Renderer.renderTrace`): `<number of blocks> # ` then blocks separated by `|` (last = tail), frames by `,`;
                ` ! <error>` appended if a call raised (blocks before it are kept)
      `spec` -> `RenderSpec.out` as one block
    fir ; cfg <B> <nch> ; taps <L> <L*nch rats> ; x <rats, frame major, multiple of B frames>
@@ -32,8 +32,8 @@ def parseOptRat? (s : String) : Option (Option Rat) :=
 def showRat (q : Rat) : String :=
   if q.den = 1 then toString q.num else s!"{q.num}/{q.den}"
 
-def toVec? (n : Nat) (l : List Rat) : Option (Vector Rat n) :=
-  if h : l.toArray.size = n then some ⟨l.toArray, h⟩ else none
+def toVec? (n : Nat) (l : List Rat) : Option (Frame n) :=
+  if h : l.toArray.size = n then some ⟨⟨l.toArray, h⟩⟩ else none
 
 /-- Split a list into consecutive chunks of `n` (must divide). -/
 def chunks? {α : Type} (n : Nat) (l : List α) : Option (List (List α)) :=
@@ -48,11 +48,11 @@ def chunks? {α : Type} (n : Nat) (l : List α) : Option (List (List α)) :=
         else (l.take n :: ·) <$> go fuel (l.drop n)
     go l.length l
 
-def vecs? (n : Nat) (l : List Rat) : Option (List (Vector Rat n)) := do
+def vecs? (n : Nat) (l : List Rat) : Option (List (Frame n)) := do
   (← chunks? n l).mapM (toVec? n)
 
-def showFrames {n : Nat} (fs : List (Vector Rat n)) : String :=
-  String.intercalate "," (fs.map fun v => String.intercalate " " (v.toList.map showRat))
+def showFrames {n : Nat} (fs : List (Frame n)) : String :=
+  String.intercalate "," (fs.map fun v => String.intercalate " " (v.v.toList.map showRat))
 
 def showErr : Err → String
   | .endsAfterObject => "endsAfterObject"
@@ -117,7 +117,7 @@ def parseItems? (secs : List (List String)) : Option (List RawItem) := do
   some acc.reverse
 
 def buildItems? (n : Nat) (items : List RawItem) :
-    Option (List (ObjItem (Vector Rat n)) × List (DsItem (Vector Rat n)) × List (HoaItem (Vector Rat n))) :=
+    Option (List (ObjItem (Frame n)) × List (DsItem (Frame n)) × List (HoaItem (Frame n))) :=
   items.foldrM (init := ([], [], [])) fun it (os, ds, hs) =>
     match it with
     | .obj t bs => do
@@ -135,8 +135,8 @@ def buildItems? (n : Nat) (items : List RawItem) :
         some (r.meta cols)
       some (os, ds, ⟨tr, blocks⟩ :: hs)
 
-def showTrace {n : Nat} (r : List (List (Vector Rat n)) × Option Err) : String :=
-  String.intercalate " | " (r.1.map showFrames) ++
+def showTrace {n : Nat} (r : List (List (Frame n)) × Option Err) : String :=
+  s!"{r.1.length} # " ++ String.intercalate " | " (r.1.map showFrames) ++
     (match r.2 with | some e => " ! " ++ showErr e | none => "")
 
 def answerRender (mode : String) (secs : List (List String)) : Option String :=
@@ -155,7 +155,7 @@ def answerRender (mode : String) (secs : List (List String)) : Option String :=
     let frames := if nin = 0 then List.replicate parts.sum [] else frames
     let blocks ← splitBy? parts frames
     let (objs, dss, hoas) ← buildItems? n (← parseItems? items)
-    let cfg : Cfg (Vector Rat n) := ⟨sr, B, taps, nin⟩
+    let cfg : Cfg (Frame n) := ⟨sr, B, taps, nin⟩
     if mode = "run" then
       some (showTrace (renderTrace cfg (RState.init cfg objs dss hoas) blocks))
     else
@@ -170,10 +170,10 @@ def answerFir (secs : List (List String)) : Option String :=
     let taps ← vecs? n (← taps.mapM parseRat?)
     let frames ← vecs? n (← xs.mapM parseRat?)
     let blocks ← chunks? B frames
-    let r := blocks.foldl (init := (Fir.init taps, ([] : List (Vector Rat n)))) fun (h, acc) blk =>
+    let r := blocks.foldl (init := (Fir.init taps, ([] : List (Frame n)))) fun (h, acc) blk =>
       let (h', o) := Fir.step taps h blk
       (h', acc ++ o)
-    some (showFrames r.2)
+    some ("1 # " ++ showFrames r.2)
   | _ => none
 
 def answerVbs (secs : List (List String)) : Option String :=
@@ -186,9 +186,9 @@ def answerVbs (secs : List (List String)) : Option String :=
     let frames ← vecs? n (← xs.mapM parseRat?)
     let parts ← parts.mapM String.toNat?
     let blocks ← splitBy? parts frames
-    let st := Vbs.init (Fir.step taps) B (0 : Vector Rat n) (Fir.init taps)
+    let st := Vbs.init (Fir.step taps) B (0 : Frame n) (Fir.init taps)
     let (os, _) := Vbs.run (Fir.step taps) B 0 st blocks
-    some (String.intercalate " | " (os.map showFrames))
+    some (s!"{os.length} # " ++ String.intercalate " | " (os.map showFrames))
   | _ => none
 
 def answer (line : String) : String :=
